@@ -180,11 +180,8 @@ impl BuiltAdt {
 
         // Handle version-specific chunks based on target version
         let flight_bounds = if version >= AdtVersion::TBC {
-            // Use existing flight bounds or create defaults for TBC+
-            root.flight_bounds.or(Some(MfboChunk {
-                max_plane: [0; 9],
-                min_plane: [0; 9],
-            }))
+            // Keep existing flight bounds; MFBO is optional in TBC+ files
+            root.flight_bounds
         } else {
             None // Remove for pre-TBC
         };
